@@ -47,8 +47,28 @@ unsafe impl GlobalAlloc for PoolAlloc {
 #[global_allocator]
 static GLOBAL: PoolAlloc = PoolAlloc;
 
+/// A logger that is enabled at TRACE and discards everything: the code under test then evaluates the
+/// arguments of all its log statements (as it does for a user running with RUST_LOG=trace), so that
+/// side effects hidden in them -- e.g. taking a lock -- are exercised too.
+struct NullLogger;
+impl log::Log for NullLogger {
+    fn enabled(&self, _: &log::Metadata) -> bool {
+        true
+    }
+    fn log(&self, record: &log::Record) {
+        // format the arguments (that is what evaluates them), drop the text
+        let _ = std::hint::black_box(format!("{}", record.args()).len());
+    }
+    fn flush(&self) {}
+}
+static NULL_LOGGER: NullLogger = NullLogger;
+
 fn main() {
     let args: Vec<String> = std::env::args().skip(1).collect();
+    if args.iter().any(|a| a == "--trace-log") {
+        let _ = log::set_logger(&NULL_LOGGER);
+        log::set_max_level(log::LevelFilter::Trace);
+    }
     if args.is_empty() {
         eprintln!("usage: harness <subcommand> ...");
         std::process::exit(2);
@@ -64,6 +84,7 @@ fn main() {
         "search-exact" => search::exact(rest),
         "static-eval" => search::static_eval(rest),
         "search-sched" => search::sched(rest),
+        "search-native" => search::native(rest),
         "record-cache" => cache::main(rest),
         "record-eval" => evalrec::main(rest),
         "perft" => perft::main(rest),
